@@ -48,6 +48,7 @@ class Client(kernel.Actor):
         now = self.sim.stamp()
         if self.frames and self.frames[-1]["t_done"] is None:
             self.frames[-1]["t_done"] = now
+            self.frames[-1]["wall_done"] = self.sim.clock.wall()
         if self.disconnected or self.closed is not None:
             raise falcon.WebSocketDisconnected()
         # a frame that is already buffered in the socket is returned without yielding to the loop
@@ -117,7 +118,7 @@ class Client(kernel.Actor):
             it = ["send", text]
         if it[0] == "send":
             self.frames.append({"i": self.pos - 1, "text": it[1], "t_deliver": self.sim.stamp(),
-                                "t_done": None})
+                                "t_done": None, "wall_deliver": self.sim.clock.wall(), "wall_done": None})
             self.recv_fut.set_result(it[1])
         elif it[0] == "disconnect":
             self.disconnect()
